@@ -8,7 +8,35 @@ TRUST = ("Lean 4.33 kernel; axioms propext/Classical.choice/Quot.sound only (aud
          "hand-written model tied to /repo's working tree by the per-run correspondence check + independent property oracle in harness/; "
          "Python semantics layer NasdaqModel/Py is modelled, not verified")
 
+SESS = ("Task-level session machine Model/Session.lean (AsyncSession, Reader, HeartbeatMonitor, DispatchableMessageQueue, stop_task, soup/fix login) "
+        "with events = atomic task steps / inbound frames / user calls / cancellations in any order; tie: every run executes ~1500 random "
+        "scenarios on the real session under a virtual-time loop with every asyncio task step logged, replays the step log through the compiled "
+        "model (per-event observables + final task set) and evaluates the property statement on the implementation alone. ")
+
 CLAIMS = {
+    'C05': dict(
+        text=SESS + "Proved for every configuration and event sequence: invariant A (closed <-> close body entered; close-sequence monitor): transport "
+             "closed / close callback entered / left at most once and in that order, no message callback started after the transport is closed, "
+             "completion implies exactly once, a second close() returns at once. Completion (deadlock freedom) is covered by the scenario oracle; "
+             "application-session layer (ITCH/OUCH/SQF/ASN.1) is exercised by the oracle only.",
+        design="§5-C05, Appendix A", technique="Lean 4 invariant proof over a task-level state machine + step-log replay correspondence"),
+    'C07': dict(
+        text=SESS + "Proved: in every reachable state a connected session that does not report closed has a live, polling, unstopped reader (never open and "
+             "deaf); each poll consumes exactly one frame; the poll that meets a malformed or logout frame sets closed; closed is final. Every malformed-"
+             "frame class x segmentation is run on the implementation (must behave as the model's `bad` frame or keep delivering consistently).",
+        design="§5-C07", technique="Lean 4 invariant proof over a task-level state machine + step-log replay correspondence"),
+    'C08': dict(
+        text="Theorems over all event histories, intervals >= 1 grid unit and all three roles about Model/Monitor.lean (HeartbeatMonitor tick loop, "
+             "send_msg's heartbeat exemption, data_received's ping, the three start_heartbeats call sites): 2*I silent-gap bound, exact characterisation "
+             "of which ticks emit a heartbeat, heartbeats never count as activity, role intervals. Tie: real soup client / soup server / FIX sessions "
+             "and bare monitors under the virtual-time loop on grid schedules, write times and kinds compared with the compiled model; oracle on the "
+             "observed writes with the session's own-role interval.",
+        design="§5-C08", technique="Lean 4 proof over executable monitor model + virtual-time differential correspondence"),
+    'C09': dict(
+        text="Same model as C08. Proved for every arrival history, interval and tolerated-miss count: silence closes by (n+1)*P of the peer's role, "
+             "a trip is preceded by an arrival-free period, a live peer is never dropped, any byte counts, tolerance 0 = tolerance 1. Tie: close time "
+             "and cause of real sessions under virtual time vs the model; oracle with the peer-role interval.",
+        design="§5-C09", technique="Lean 4 proof over executable monitor model + virtual-time differential correspondence"),
     'C12': dict(
         text="Theorems over all packets/payloads (layout, length prefix, round trip, byte-exact payloads 0..32766, too-long rejected, "
              "decoded kind = type character) about Model/Soup.lean, a line-by-line transcription of soup/core.py; every run diffs model "
